@@ -159,7 +159,7 @@ pub trait QRDecomposableMatrix<T: RealNumber>: BaseMatrix<T> {
                 nrm = nrm.hypot(self.get(i, k));
             }
 
-            if nrm.abs() > T::epsilon() {
+            if nrm != T::zero() {
                 if self.get(k, k) < T::zero() {
                     nrm = -nrm;
                 }
